@@ -151,7 +151,7 @@ def _signature(src, name, fname):
 # facts: name -> (file, function, regex on a logical line (blank-free) with ONE group)
 _FACTS = [
     # align_banded
-    ("banded.swap_condition", "banded", "align_banded", r"^if(len\(seq2\)<len\(seq1\)):$"),
+    ("banded.swap_condition", "banded", "align_banded", r"^if(len\(seq2\).{1,2}len\(seq1\)):$"),
     ("banded.swap_band", "banded", "align_banded", r"^band=(\[-diagfordiaginband\])$"),
     ("banded.swap_matrix", "banded", "align_banded", r"^matrix=(matrix\.transpose\(\))$"),
     ("banded.lower_upper", "banded", "align_banded", r"^lower_diag,upper_diag=(.*)$"),
@@ -161,7 +161,7 @@ _FACTS = [
     ("banded.table_shape", "banded", "align_banded", r"^trace_table=np\.zeros\((\(.*?\)),dtype"),
     ("banded.neg_inf", "banded", "align_banded", r"^neg_inf=(np\.iinfo.*)$"),
     ("banded.neg_inf_gap", "banded", "align_banded", r"^neg_inf-=(min\(gap_penalty\).*)$"),
-    ("banded.neg_inf_score_guard", "banded", "align_banded", r"^if(min_score<0):$"),
+    ("banded.neg_inf_score_guard", "banded", "align_banded", r"^if(min_score.*):$"),
     ("banded.border_left", "banded", "align_banded", r"^score_table\[:,0\]=(.*)$"),
     ("banded.border_right", "banded", "align_banded", r"^score_table\[:,-1\]=(.*)$"),
     ("banded.g1_init", "banded", "align_banded", r"^g1_table=np\.full\(\(.*?\),(\w+),"),
@@ -178,7 +178,7 @@ _FACTS = [
     ("banded.fill.from_diag", "banded", "_fill_align_table", r"^from_diag=(.*)$"),
     ("banded.fill.from_left", "banded", "_fill_align_table", r"^from_left=(.*)$"),
     ("banded.fill.from_top", "banded", "_fill_align_table", r"^from_top=(.*)$"),
-    ("banded.fill.local_floor", "banded", "_fill_align_table", r"^if(local==Trueandscore<=0):$"),
+    ("banded.fill.local_floor", "banded", "_fill_align_table", r"^if(local==Trueand.*):$"),
     # banded fill, affine
     ("banded.aff.mm", "banded", "_fill_align_table_affine", r"^mm_score=(.*)$"),
     ("banded.aff.g1m", "banded", "_fill_align_table_affine", r"^g1m_score=(.*)$"),
@@ -187,23 +187,23 @@ _FACTS = [
     ("banded.aff.g1g1", "banded", "_fill_align_table_affine", r"^g1g1_score=(.*)$"),
     ("banded.aff.mg2", "banded", "_fill_align_table_affine", r"^mg2_score=(.*)$"),
     ("banded.aff.g2g2", "banded", "_fill_align_table_affine", r"^g2g2_score=(.*)$"),
-    ("banded.aff.local_m", "banded", "_fill_align_table_affine", r"^if(m_score<=0):$"),
-    ("banded.aff.local_g1", "banded", "_fill_align_table_affine", r"^if(g1_score<=0):$"),
-    ("banded.aff.local_g2", "banded", "_fill_align_table_affine", r"^if(g2_score<=0):$"),
+    ("banded.aff.local_m", "banded", "_fill_align_table_affine", r"^if(m_score[<>=!]+0):$"),
+    ("banded.aff.local_g1", "banded", "_fill_align_table_affine", r"^if(g1_score[<>=!]+0):$"),
+    ("banded.aff.local_g2", "banded", "_fill_align_table_affine", r"^if(g2_score[<>=!]+0):$"),
     # trace starts
     ("banded.starts.seq_j", "banded", "get_global_trace_starts", r"^seq_j=(.*)$"),
-    ("banded.starts.test", "banded", "get_global_trace_starts", r"^i=np\.where\((seq_j<seq2_len),"),
+    ("banded.starts.test", "banded", "get_global_trace_starts", r"^i=np\.where\((seq_j.{1,2}seq2_len),"),
     ("banded.starts.column_row", "banded", "get_global_trace_starts", r",(\(seq2_len-1\)-j-lower_diag\+2)\)$"),
     # align_local_gapped
-    ("gapped.no_upstream", "localgapped", "align_local_gapped", r"^if(seq1_start==0orseq2_start==0):$"),
+    ("gapped.no_upstream", "localgapped", "align_local_gapped", r"^if(seq1_start.{1,2}0(?:or|and)seq2_start.{1,2}0):@@upstream=False$"),
     ("gapped.upstream_slices", "localgapped", "align_local_gapped", r"^score,upstream_traces=_align_region\((code1\[.*?\],code2\[.*?\]),"),
     ("gapped.downstream_slices", "localgapped", "align_local_gapped", r"^score,downstream_traces=_align_region\((code1\[.*?\],code2\[.*?\]),"),
     ("gapped.seed_score", "localgapped", "align_local_gapped", r"^total_score\+=(score_matrix\[.*)$"),
-    ("gapped.default_mts", "localgapped", "align_local_gapped", r"^max_table_size=(np\.iinfo\(np\.int64\)\.max)$"),
+    ("gapped.default_mts", "localgapped", "align_local_gapped", r"^max_table_size=(np\.iinfo.*)$"),
     ("gapped.init_size", "localgapped", "_align_region", r"^init_size=(\(.*\))$"),
     ("gapped.init_score", "localgapped", "_align_region", r"^init_score=(.*)$"),
-    ("gapped.region_result_score_only", "localgapped", "_align_region", r"^return(max_score-init_score,None)$"),
-    ("gapped.region_result", "localgapped", "_align_region", r"^return(max_score-init_score,trace_list)$"),
+    ("gapped.region_result_score_only", "localgapped", "_align_region", r"^return(max_score.*,None)$"),
+    ("gapped.region_result", "localgapped", "_align_region", r"^return(max_score.*,trace_list)$"),
     ("gapped.region_cut", "localgapped", "_align_region", r"^trace_list=(trace_list\[:max_number\])$"),
     # X-drop fill, linear
     ("gapped.fill.k_range", "localgapped", "_fill_align_table", r"^forkinrange\((.*)\):$"),
@@ -211,31 +211,31 @@ _FACTS = [
     ("gapped.fill.i_max", "localgapped", "_fill_align_table", r"^i_max=(_max\(.*)$"),
     ("gapped.fill.i_min_clip", "localgapped", "_fill_align_table", r"^i_min=(_max\(.*)$"),
     ("gapped.fill.i_max_clip", "localgapped", "_fill_align_table", r"^i_max=(_min\(.*)$"),
-    ("gapped.fill.stop", "localgapped", "_fill_align_table", r"^if(i_min>i_max):$"),
+    ("gapped.fill.stop", "localgapped", "_fill_align_table", r"^if(i_min[<>=!]+i_max):$"),
     ("gapped.fill.j_max", "localgapped", "_fill_align_table", r"^j_max=(.*)$"),
-    ("gapped.fill.grow_rows", "localgapped", "_fill_align_table", r"^if(i_max>=score_table\.shape\[0\]):$"),
-    ("gapped.fill.grow_cols", "localgapped", "_fill_align_table", r"^if(j_max>=score_table\.shape\[1\]):$"),
+    ("gapped.fill.grow_rows", "localgapped", "_fill_align_table", r"^if(i_max[<>=!]+score_table\.shape\[0\]):$"),
+    ("gapped.fill.grow_cols", "localgapped", "_fill_align_table", r"^if(j_max[<>=!]+score_table\.shape\[1\]):$"),
     ("gapped.fill.i_range", "localgapped", "_fill_align_table", r"^foriinrange\((.*)\):$"),
     ("gapped.fill.j", "localgapped", "_fill_align_table", r"^j=(.*)$"),
-    ("gapped.fill.diag_valid", "localgapped", "_fill_align_table", r"^if(from_diag!=0):$"),
+    ("gapped.fill.diag_valid", "localgapped", "_fill_align_table", r"^if(from_diag[<>=!]+0):$"),
     ("gapped.fill.from_diag", "localgapped", "_fill_align_table", r"^from_diag\+=(.*)$"),
     ("gapped.fill.from_top", "localgapped", "_fill_align_table", r"^from_top=(score_table.*)$"),
     ("gapped.fill.from_left", "localgapped", "_fill_align_table", r"^from_left=(score_table.*)$"),
     ("gapped.fill.score_only", "localgapped", "_fill_align_table", r"^score=(_max\(.*)$"),
-    ("gapped.fill.new_max", "localgapped", "_fill_align_table", r"^if(score>max_score):$"),
-    ("gapped.fill.req_score", "localgapped", "_fill_align_table", r"^req_score=(max_score-threshold)$"),
+    ("gapped.fill.new_max", "localgapped", "_fill_align_table", r"^if(score[<>=!]+max_score):$"),
+    ("gapped.fill.req_score", "localgapped", "_fill_align_table", r"^req_score=(.*)$"),
     # X-drop fill, affine
-    ("gapped.aff.mm_valid", "localgapped", "_fill_align_table_affine", r"^if(mm_score!=0):$"),
+    ("gapped.aff.mm_valid", "localgapped", "_fill_align_table_affine", r"^if(mm_score[<>=!]+0):$"),
     ("gapped.aff.mg1", "localgapped", "_fill_align_table_affine", r"^mg1_score=(m_table.*)$"),
     ("gapped.aff.g1g1", "localgapped", "_fill_align_table_affine", r"^g1g1_score=(g1_table.*)$"),
     ("gapped.aff.mg2", "localgapped", "_fill_align_table_affine", r"^mg2_score=(m_table.*)$"),
     ("gapped.aff.g2g2", "localgapped", "_fill_align_table_affine", r"^g2g2_score=(g2_table.*)$"),
-    ("gapped.aff.accept_m", "localgapped", "_fill_align_table_affine", r"^if(m_score>=req_score):$"),
-    ("gapped.aff.accept_g1", "localgapped", "_fill_align_table_affine", r"^if(g1_score>=req_score):$"),
-    ("gapped.aff.accept_g2", "localgapped", "_fill_align_table_affine", r"^if(g2_score>=req_score):$"),
+    ("gapped.aff.accept_m", "localgapped", "_fill_align_table_affine", r"^if(m_score[<>=!]+req_score):$"),
+    ("gapped.aff.accept_g1", "localgapped", "_fill_align_table_affine", r"^if(g1_score[<>=!]+req_score):$"),
+    ("gapped.aff.accept_g2", "localgapped", "_fill_align_table_affine", r"^if(g2_score[<>=!]+req_score):$"),
     ("gapped.aff.result", "localgapped", "_align_region", r"^max_score=(np\.max\(m_table\))$"),
     # align_local_ungapped
-    ("ungapped.upstream_condition", "localungapped", "align_local_ungapped", r"^if(upstreamandseq1_start>0andseq2_start>0):$"),
+    ("ungapped.upstream_condition", "localungapped", "align_local_ungapped", r"^if(upstream(?:and|or).*):$"),
     ("ungapped.upstream_slices", "localungapped", "align_local_ungapped", r"^score,length=_seed_extend_generic\((code1\[seq1_start-1.*?\],code2\[.*?\]),"),
     ("ungapped.downstream_slices", "localungapped", "align_local_ungapped", r"^score,length=_seed_extend_generic\((code1\[seq1_start\+1.*?\],code2\[.*?\]),"),
     ("ungapped.seed_score", "localungapped", "align_local_ungapped", r"^total_score\+=(score_matrix\[.*)$"),
@@ -244,8 +244,8 @@ _FACTS = [
     ("ungapped.trace_rows", "localungapped", "align_local_ungapped", r"^trace=np\.stack\(\[(np\.arange\(.*?\),np\.arange\(.*?\))\],"),
     ("ungapped.extend.domain", "localungapped", "_seed_extend_generic", r"^foriinrange\((.*)\):$"),
     ("ungapped.extend.step", "localungapped", "_seed_extend_generic", r"^total_score\+=(.*)$"),
-    ("ungapped.extend.result", "localungapped", "_seed_extend_generic", r"^return(max_score,i_max_score\+1)$"),
-    ("ungapped.extend.init", "localungapped", "_seed_extend_generic", r"^cdefinti_max_score=(-1)$"),
+    ("ungapped.extend.result", "localungapped", "_seed_extend_generic", r"^return(max_score,.*)$"),
+    ("ungapped.extend.init", "localungapped", "_seed_extend_generic", r"^cdefinti_max_score=(.*)$"),
     # _extend_table
     ("gapped.extend.rows", "localgapped", "_extend_table", r"^new_shape=(\(table\.shape\[0\]\*2,table\.shape\[1\]\))$"),
     ("gapped.extend.cols", "localgapped", "_extend_table", r"^new_shape=(\(table\.shape\[0\],table\.shape\[1\]\*2\))$"),
@@ -263,8 +263,11 @@ def extract_facts():
         if (f, fn) not in lines:
             lines[(f, fn)] = _logical_lines(_pyx_function(srcs[f], fn, f + ".pyx"))
         hit = None
-        for ln in lines[(f, fn)]:
-            mm = re.search(pat, ln)
+        ll = lines[(f, fn)]
+        for k_, ln in enumerate(ll):
+            # a pattern containing "@@" is matched against a line together with its successor
+            text = ln + "@@" + (ll[k_ + 1] if k_ + 1 < len(ll) else "") if "@@" in pat else ln
+            mm = re.search(pat, text)
             if mm:
                 hit = mm.group(1)
                 break
